@@ -269,6 +269,41 @@ Outcome(st) ==
   ELSE [ok |-> FALSE, err |-> st.err,
         pulls |-> IF st.err.kind = "unexpected" /\ st.err.ch # EOF THEN st.n + 1 ELSE st.n]
 
+
+(***************************************************************************)
+(* The typed entry points (beyond the listed properties: `bool`, `()`,      *)
+(* `NumberBuf` and `String` implement the same Parse trait as Value).  They *)
+(* parse ONE token that must start at the very first character (no leading  *)
+(* whitespace is skipped) and stop right after it: what follows a literal   *)
+(* or a string is not looked at; a number ends at the first character that  *)
+(* cannot continue it, which must be JSON whitespace or the end of input    *)
+(* (the follow set of the top-level context).  The token automata are the   *)
+(* ones of the value parser, so TokenRun reuses Step.                       *)
+(***************************************************************************)
+TokenKinds == {"bool", "null", "num", "str"}
+TokenStartOK(kind, c) ==
+  CASE kind = "bool" -> c \in {116, 102}
+    [] kind = "null" -> c = 110
+    [] kind = "num"  -> c = MINUS \/ IsDigit(c)
+    [] kind = "str"  -> c = QUOTE
+TokenKindOf(c) == IF c \in {116, 102} THEN "bool" ELSE IF c = 110 THEN "null"
+                  ELSE IF c = MINUS \/ IsDigit(c) THEN "num" ELSE IF c = QUOTE THEN "str" ELSE "none"
+
+RECURSIVE TokFrom(_, _, _, _)
+TokFrom(st, cs, i, o) ==
+  IF st.mode \in {"err", "after", "done"} THEN st
+  ELSE IF i > Len(cs) THEN Step(st, EOF, o)
+  ELSE TokFrom(Step(st, cs[i], o), cs, i + 1, o)
+
+TokenRun(kind, cs, o) ==
+  IF cs = <<>> THEN Fail(Init, ErrUnexpected(0, EOF))
+  ELSE IF ~TokenStartOK(kind, cs[1]) THEN Fail(Init, ErrUnexpected(0, cs[1]))
+  ELSE TokFrom(Step(Init, cs[1], o), cs, 2, o)
+
+TokenOutcome(st) ==
+  IF st.mode \in {"after", "done"} THEN [ok |-> TRUE, v |-> st.val, cm |-> CmTriples(st.cm)]
+  ELSE [ok |-> FALSE, err |-> st.err]
+
 (***************************************************************************)
 (* Viable prefixes (C07).  Completion(st) is a character sequence that      *)
 (* closes the current token and every open container.  The invariant        *)
